@@ -1,6 +1,8 @@
 package types
 
 import (
+	"fmt"
+
 	"github.com/tendermint/tendermint/crypto/tmhash"
 
 	sdk "github.com/cosmos/cosmos-sdk/types"
@@ -32,6 +34,10 @@ func (tp TokenPair) GetERC20Contract() common.Address {
 
 // Validate performs a stateless validation of a TokenPair
 func (tp TokenPair) Validate() error {
+	// the pair id and both indexes are derived from the first denomination
+	if len(tp.Denoms) == 0 {
+		return fmt.Errorf("token pair %s lists no denomination", tp.ERC20Address)
+	}
 	for _, denom := range tp.Denoms {
 		if err := sdk.ValidateDenom(denom); err != nil {
 			return err
